@@ -1,5 +1,6 @@
 from __future__ import annotations
 
+import contextlib
 import os
 import re
 import sys
@@ -160,18 +161,21 @@ class FakeSnowflakeCursor:
                 transformed.args.get("table_comment") or transformed.args.get("text_lengths")
             )
             own_transaction = multi_step and not self._in_transaction()
-            if own_transaction:
-                self._duck_conn.execute("BEGIN")
-            try:
-                self._execute(transformed, params)
-                for exp in exploded[1:]:
-                    self._execute(self._transform(exp), params)
+            # one such transaction at a time per instance: two of them writing the same metadata row (eg: the comment of
+            # one table) would otherwise fail with duckdb's write-write conflict error
+            with self._conn._multi_step_lock if own_transaction else contextlib.nullcontext():  # noqa: SLF001
                 if own_transaction:
-                    self._duck_conn.execute("COMMIT")
-            except Exception:
-                if own_transaction:
-                    self._duck_conn.execute("ROLLBACK")
-                raise
+                    self._duck_conn.execute("BEGIN")
+                try:
+                    self._execute(transformed, params)
+                    for exp in exploded[1:]:
+                        self._execute(self._transform(exp), params)
+                    if own_transaction:
+                        self._duck_conn.execute("COMMIT")
+                except Exception:
+                    if own_transaction:
+                        self._duck_conn.execute("ROLLBACK")
+                    raise
             if isinstance(expression, sqlglot.exp.Merge) and self._arrow_table is not None:
                 # the result has been fetched: don't leave the helper table behind in the session, where it is
                 # visible and shadows a table of that name
